@@ -9,10 +9,12 @@ sys.path.insert(0, HERE)
 from mutants import MUTANTS  # noqa
 
 
-def run(pids=None, standin=True, verbose=True):
+def run(pids=None, standin=True, verbose=True, name=None):
     out = []
     for m in MUTANTS:
         if pids and m['property'] not in pids:
+            continue
+        if name and name not in m['name']:
             continue
         d = tempfile.mkdtemp(prefix='pyvc-mut-', dir='/var/tmp')
         try:
@@ -38,6 +40,8 @@ def run(pids=None, standin=True, verbose=True):
 
 
 if __name__ == '__main__':
-    res = run(sys.argv[1:] or None)
+    args = [a for a in sys.argv[1:] if not a.startswith('--name=')]
+    nm = [a[7:] for a in sys.argv[1:] if a.startswith('--name=')]
+    res = run(args or None, name=nm[0] if nm else None)
     k = sum(1 for r in res if r[1] == 'killed')
     print("killed %d / %d" % (k, len(res)))
